@@ -467,6 +467,14 @@ func buildArchiveFooter(name hash.Hash, fileSize uint64, buf []byte) (f archiveF
 
 	f.hash = name
 
+	// The index holds 8 bytes per byte span and 8+8+12 bytes per chunk, and the three trailing sections
+	// must fit in the file. Reject inconsistent counts before anything is sized from them.
+	wantIndex := uint64(f.byteSpanCount)*uint64Size + uint64(f.chunkCount)*(uint64Size+uint32Size+uint32Size+hash.SuffixLen)
+	if f.indexSize != wantIndex || f.actualFooterSize()+uint64(f.metadataSize)+f.indexSize > fileSize {
+		err = ErrInvalidChunkRange
+		return
+	}
+
 	return
 }
 
@@ -617,7 +625,11 @@ func (ar *archiveReader) getRawByRef(ctx context.Context, dictId, dataId uint32,
 		}
 	}
 
-	data, err = ar.readByteSpan(ctx, ar.getByteSpanByID(dataId), stats)
+	dataSpan, err := ar.checkedByteSpan(dataId)
+	if err != nil {
+		return nil, nil, err
+	}
+	data, err = ar.readByteSpan(ctx, dataSpan, stats)
 	if err != nil {
 		return nil, nil, err
 	}
@@ -640,7 +652,11 @@ func (ar *archiveReader) loadDict(ctx context.Context, dictId uint32, stats *Sta
 		return cached, nil
 	}
 
-	dictBytes, err := ar.readByteSpan(ctx, ar.getByteSpanByID(dictId), stats)
+	dictSpan, err := ar.checkedByteSpan(dictId)
+	if err != nil {
+		return nil, ErrInvalidDictionaryRange
+	}
+	dictBytes, err := ar.readByteSpan(ctx, dictSpan, stats)
 	if err != nil {
 		return nil, err
 	}
@@ -668,6 +684,20 @@ func (ar *archiveReader) getByteSpanByID(id uint32) byteSpan {
 	offset := ar.indexReader.getSpanIndex(id - 1)
 	length := ar.indexReader.getSpanIndex(id) - offset
 	return byteSpan{offset: offset, length: length}
+}
+
+// checkedByteSpan returns the byte span |id| after validating it: ids run from 1 to the byte span count, and
+// every span is non-empty, ascending and inside the data section.
+func (ar *archiveReader) checkedByteSpan(id uint32) (byteSpan, error) {
+	if id == 0 || id > ar.footer.byteSpanCount {
+		return byteSpan{}, ErrInvalidChunkRange
+	}
+	start := ar.indexReader.getSpanIndex(id - 1)
+	end := ar.indexReader.getSpanIndex(id)
+	if end <= start || end > ar.footer.dataSpan().length {
+		return byteSpan{}, ErrInvalidChunkRange
+	}
+	return byteSpan{offset: start, length: end - start}, nil
 }
 
 // getSuffixByID returns the suffix for the chunk at the given index. Assumes good input!
@@ -722,12 +752,15 @@ func (ar *archiveReader) iterate(ctx context.Context, cb func(chunks.Chunk) erro
 			return context.Cause(ctx)
 		}
 
-		span := ar.getByteSpanByID(byteSpanCounter)
+		span, err := ar.checkedByteSpan(byteSpanCounter)
+		if err != nil {
+			return err
+		}
 		for cap(buf) < int(span.length) {
 			buf = append(buf, make([]byte, cap(buf))...)
 		}
 
-		_, err := io.ReadFull(bufReader, buf[:span.length])
+		_, err = io.ReadFull(bufReader, buf[:span.length])
 		if err != nil {
 			return fmt.Errorf("error reading archive file: %w", err)
 		}
@@ -742,7 +775,7 @@ func (ar *archiveReader) iterate(ctx context.Context, cb func(chunks.Chunk) erro
 		} else if chunkId, exists := dataReverseIndex[byteSpanCounter]; exists {
 			dictId, dataId := ar.getChunkRef(int(chunkId))
 			if byteSpanCounter != dataId {
-				panic("Reverse Index incorrect: ByteSpan ID does not match data ID in chunk reference")
+				return ErrInvalidChunkRange
 			}
 
 			// Reconstruct the hash for this chunk
@@ -769,7 +802,7 @@ func (ar *archiveReader) iterate(ctx context.Context, cb func(chunks.Chunk) erro
 			} else {
 				dict, ok := loadedDictionaries[dictId]
 				if !ok {
-					panic("Reverse Index incomplete: Dictionary ID not found in loaded dictionaries")
+					return ErrInvalidDictionaryRange
 				}
 
 				chunkData, err = gozstd.DecompressDict(nil, spanData, dict)
@@ -784,7 +817,7 @@ func (ar *archiveReader) iterate(ctx context.Context, cb func(chunks.Chunk) erro
 				return err
 			}
 		} else {
-			panic("Reverse Index incomplete: ByteSpan ID not found in either dictionary or data reverse index")
+			return ErrInvalidChunkRange
 		}
 		byteSpanCounter++
 	}
@@ -822,7 +855,12 @@ func (ar *archiveReader) tolerantIterate(ctx context.Context, cb func(chunks.Chu
 			return
 		}
 
-		span := ar.getByteSpanByID(byteSpanCounter)
+		span, spanErr := ar.checkedByteSpan(byteSpanCounter)
+		if spanErr != nil {
+			// The sequential read cannot be resynchronised once a span is unusable.
+			errCb(fmt.Errorf("invalid archive byte span %d: %w", byteSpanCounter, spanErr))
+			return
+		}
 		for cap(buf) < int(span.length) {
 			buf = append(buf, make([]byte, cap(buf))...)
 		}
@@ -846,7 +884,9 @@ func (ar *archiveReader) tolerantIterate(ctx context.Context, cb func(chunks.Chu
 		} else if chunkId, exists := dataReverseIndex[byteSpanCounter]; exists {
 			dictId, dataId := ar.getChunkRef(int(chunkId))
 			if byteSpanCounter != dataId {
-				panic("Reverse Index incorrect: ByteSpan ID does not match data ID in chunk reference")
+				errCb(fmt.Errorf("archive chunk reference %d does not point at byte span %d: %w", chunkId, byteSpanCounter, ErrInvalidChunkRange))
+				byteSpanCounter++
+				continue
 			}
 
 			prefix := ar.indexReader.getPrefix(chunkId)
